@@ -18,6 +18,8 @@
 package context
 
 import (
+	"time"
+
 	"github.com/lindb/lindb/models"
 	"github.com/lindb/lindb/pkg/timeutil"
 	"github.com/lindb/lindb/sql/stmt"
@@ -35,8 +37,8 @@ func calcTimeRangeAndInterval(statement *stmt.Query, cfg models.Database) {
 	interval = timeutil.CalcQueryInterval(statement.TimeRange, interval)
 	storageInterval := option.FindMatchSmallestInterval(interval)
 	intervalVal := storageInterval.Int64()
-	statement.TimeRange.Start = timeutil.Truncate(statement.TimeRange.Start, intervalVal)
-	statement.TimeRange.End = timeutil.Truncate(statement.TimeRange.End, intervalVal)
+	statement.TimeRange.Start = truncateToSlot(statement.TimeRange.Start, intervalVal)
+	statement.TimeRange.End = truncateToSlot(statement.TimeRange.End, intervalVal)
 	if statement.AutoGroupByTime {
 		// fill group by interval if not set
 		statement.Interval = timeutil.Interval(statement.TimeRange.End-statement.TimeRange.Start) + storageInterval
@@ -52,4 +54,14 @@ func calcTimeRangeAndInterval(statement *stmt.Query, cfg models.Database) {
 	statement.StorageInterval = storageInterval
 	statement.Interval = interval
 	statement.IntervalRatio = intervalRatio
+}
+
+// truncateToSlot truncates timestamp to the start of its storage slot.
+// NOTE: storage slots are anchored at the family start time, which is based on local time(interval calculator),
+// so the truncation must be done on local time too, else the range is not on slot boundaries
+// when the zone offset is not a multiple of the interval(+08:00 with 6h/12h/1d etc.).
+func truncateToSlot(timestamp, interval int64) int64 {
+	_, offsetSeconds := time.UnixMilli(timestamp).In(time.Local).Zone()
+	offset := int64(offsetSeconds) * 1000
+	return timeutil.Truncate(timestamp+offset, interval) - offset
 }
